@@ -878,6 +878,60 @@ impl<'a> Gen<'a> {
         self.out.push_str(&format!("def {v} := {ctor}\n{f}({v})\n"));
     }
 
+    /// A clash of same-named members BELOW the direct parents: two classes define a method
+    /// and a field of one name with different types, a third has both as parents, and the
+    /// members are used through a child (or grandchild) of the third.  Which one is
+    /// inherited must be decided the same way every time, at every depth.
+    fn gen_deep_clash(&mut self) {
+        let (m, f) = (self.fresh("dm"), self.fresh("df"));
+        let ta = self.prim();
+        let mut tb = self.prim();
+        if tb == ta {
+            tb = if ta == Ty::Int { Ty::Str } else { Ty::Int };
+        }
+        let mut mk = |g: &mut Self, mt: &Ty, ft: &Ty, parents: Vec<usize>, members: bool| -> usize {
+            g.counter += 1;
+            let name = format!("{}C{}", capitalise(&g.prefix), g.counter);
+            let ptxt = if parents.is_empty() { String::new() } else { format!(": {}", parents.iter().map(|&p| g.classes[p].name.clone()).collect::<Vec<_>>().join(", ")) };
+            let own = g.fresh("f");
+            g.out.push_str(&format!("class {name}{ptxt}\n"));
+            let mut info = ClassInfo { name, args: vec![], fields: vec![], methods: vec![], parents, is_exception: false };
+            if members {
+                let (ml, fl) = (g.lit(mt), g.lit(ft));
+                g.out.push_str(&format!("    def {f}: {} := {fl}\n    def {m}(self) -> {} => {ml}\n", g.ty_name(ft), g.ty_name(mt)));
+                info.fields.push((f.clone(), ft.clone()));
+                info.methods.push(Method { name: m.clone(), params: vec![], ret: mt.clone() });
+            } else {
+                g.out.push_str(&format!("    def {own}: Int := {}\n", g.rng.below(90)));
+                info.fields.push((own, Ty::Int));
+            }
+            g.out.push('\n');
+            g.classes.push(info);
+            g.classes.len() - 1
+        };
+        let a = mk(self, &ta, &tb, vec![], true);
+        let b = mk(self, &tb, &ta, vec![], true);
+        let both = if self.rng.chance(1, 2) { vec![a, b] } else { vec![b, a] };
+        let mid = mk(self, &Ty::Int, &Ty::Int, both, false);
+        let mut leaf = mk(self, &Ty::Int, &Ty::Int, vec![mid], false);
+        if self.rng.chance(1, 3) {
+            leaf = mk(self, &Ty::Int, &Ty::Int, vec![leaf], false);
+        }
+        let v = self.fresh("v");
+        self.out.push_str(&format!("def {v} := {}()\n", self.classes[leaf].name));
+        // the uses: typed with one of the two candidates (accepted or rejected — the same every
+        // time), or left to inference (the annotation shows the winner)
+        for _ in 0..self.rng.range(1, 3) {
+            let r = self.fresh("v");
+            let access = if self.rng.chance(1, 2) { format!("{v}.{m}()") } else { format!("{v}.{f}") };
+            match self.rng.below(3) {
+                0 => self.out.push_str(&format!("def {r} := {access}\n")),
+                1 => self.out.push_str(&format!("def {r}: {} := {access}\n", self.ty_name(&ta))),
+                _ => self.out.push_str(&format!("def {r}: {} := {access}\n", self.ty_name(&tb))),
+            }
+        }
+    }
+
     /// functions as values: function-typed parameters, unions of function types (also of
     /// different arity), calls through them, anonymous functions as arguments
     fn gen_callable(&mut self) {
@@ -1105,7 +1159,7 @@ impl<'a> Gen<'a> {
 
     fn gen_toplevel(&mut self) {
         let v = self.fresh("v");
-        let kinds = if self.conservative { 17 } else { 31 };
+        let kinds = if self.conservative { 17 } else { 33 };
         match self.rng.below(kinds) {
             18 | 19 | 20 => self.gen_same_class_union(&v),
             21 | 22 | 23 => self.gen_union_receiver(&v),
@@ -1113,6 +1167,7 @@ impl<'a> Gen<'a> {
             25 | 26 => self.gen_callable(),
             27 | 28 => self.gen_chain_union(),
             29 | 30 => self.gen_user_generics(),
+            31 | 32 => self.gen_deep_clash(),
             16 => {
                 let (ut, tys) = self.union_ty();
                 let k = self.rng.below(tys.len() as u64) as usize;
